@@ -180,7 +180,8 @@ def run_case(spec, work):
     # (c') every other stage except the statistics (whose sums may differ
     #      in the last bit with the order of addition, see C09): any worker
     #      count gives the same file, value for value
-    if not stage.startswith('mapping') and stage != 'stats':
+    if not stage.startswith('mapping') and \
+            not stage.startswith('stats'):
         vkeys = [k for k in keys if k.endswith('__values')
                  or k == 'returned']
         for npc in ([1, 3] if spec['tier'] == 'quick' else [1, 2, 3, 5]):
